@@ -41,6 +41,15 @@ func (ial *IndentAwareLexer) checkNextToken() {
 func (ial *IndentAwareLexer) handleNewLineToken(currentToken antlr.Token) {
 	ial.pendingTokens.Enqueue(currentToken)
 
+	// Blank lines and comment-only lines carry no indentation information.
+	input := ial.GetInputStream()
+	switch next := input.LA(1); {
+	case next == antlr.TokenEOF, next == '\n', next == '\r':
+		return
+	case next == '/' && input.LA(2) == '/':
+		return
+	}
+
 	currentIndentationLength := ial.getLengthOfNewlineToken(currentToken)
 
 	previousIndent := 0
